@@ -26,11 +26,11 @@ type Entry struct {
 
 // Volume is one PAR/Pxx file.
 type Volume struct {
-	Version    uint64 // 0 = 0x00010000
-	SetHash    [16]byte
-	VolNumber  uint64
-	Entries    []Entry
-	Data       []byte // comment (index) or parity data
+	Version   uint64 // 0 = 0x00010000
+	SetHash   [16]byte
+	VolNumber uint64
+	Entries   []Entry
+	Data      []byte // comment (index) or parity data
 	// overrides (nil = computed)
 	FileCount  *uint64
 	ListOffset *uint64
